@@ -40,6 +40,13 @@ PROPS = {
         explanation="Theorems (all lists: cyclic, self loops, dangling targets, duplicate ids, any root set; all starts; all depths >= 1): node sets of NodeSiblings/NodeDescendants/NodeGraph = one-hop / depth-bounded / unbounded reachability with the root-boundary rule; edges = the list's edges among returned nodes; start node sole root; monotone in depth; independent of node/edge/root order; the traversal fuel (number of nodes) always suffices (simple-path argument), which is the model-level termination statement. Tie: the three traversals observed on random multigraphs vs Model/Graph.v; oracle = textbook BFS in Go incl. an exhaustive 3-node sweep; calls run under a 5 s watchdog.",
         assumptions=[GRAPH_NOTE, "termination of the Go recursion itself is observed (watchdog), the theorem is about the model's fuel"],
     ),
+    "C16": dict(
+        props_v="Props/C16.v",
+        corr_v=["Corr/CheckC16.v"],
+        n_quick=90, n_thorough=3000,
+        explanation="Theorems: by id / name / identifier / root membership / purl type return precisely the nodes meeting the criterion (identifier-type spellings from the generated tables); GetMatchingNode equals the documented rule on lists with unique identifiers, never returns a node outside the list (all lists), is sound, and is invariant under every permutation of the node list (unique identifiers; refuted with repeated identifiers = known finding K11). Tie: all six lookups observed on random lists vs Model/Match.v; matching repeated 20x and on shuffled lists.",
+        assumptions=[GRAPH_NOTE, "strings.ToLower/TrimSpace are modelled for ASCII (generator uses ASCII spellings)", "Go map iteration order is abstracted: the model iterates in list order and the theorem proves the outcome independent of it"],
+    ),
 }
 
 NOT_APPLICABLE = {}
